@@ -190,6 +190,9 @@ def handle (st : DriverC01.St) (l : Line) : Option (DriverC01.St × List String 
     -- `async_subset`: the value of `retrieve_array_subset`; its buffers are judged by tiling only
     let lv := if l.verbs[2]? == some "async_subset" then { l with verbs := l.verbs.set 2 "retrieve_array_subset" } else l
     let (st', acc, note) ← DriverC01.handle st { lv with outcome := val }
+    -- a region the model rejects (it reaches beyond the chunk grid): the property speaks of buffers that ARE returned, so an
+    -- error and a panic both return nothing to judge here (the panic is recorded as an observation in DESIGN §10.4)
+    let acc := if acc == ["err"] && val == "panic" then [val] else acc
     let ms ← if wm == "-" then pure [] else (wm.splitOn ";").mapM parseMap
     let bad := ms.filter (fun m => !tiles m.1 m.2)
     if !bad.isEmpty then
